@@ -161,6 +161,7 @@ type stepSpec struct {
 	//   remove: connection #ci is removed from the registry (ClientRegistry.Unregister: the kick / stale-cleanup window), its stream stays open
 	// concurrent pair: this command is parked in its Park-th storage call, the Pair command (another connection) is handled from
 	// start to end meanwhile on the same handler objects, then this command resumes
+	Name string    `json:"name,omitempty"` // HTTPDomainCreate: the sub-domain to create (default: a fresh one)
 	Park int       `json:"park"`
 	Pair *stepSpec `json:"pair,omitempty"`
 	Fault int `json:"fault"` // k > 0: the k-th storage call made while this command is handled fails (one-shot); -1: count the calls only
@@ -529,6 +530,13 @@ func (w *world) body(s *stepSpec, subSeq int) string {
 		for _, k := range []string{"client_id", "sender_client_id", "source_client_id", "listen_client_id", "owner_client_id", "created_by", "user_id"} {
 			m[k] = claim
 		}
+		// ... and the same under Go field-name spellings: encoding/json matches a struct field WITHOUT a json tag by its name,
+		// case-insensitively, so a handler that decodes the body into a service-layer struct can be fed its identity fields
+		for _, k := range []string{"ListenClientID", "TargetClientID", "ClientID", "SenderClientID", "SourceClientID", "OwnerClientID",
+			"RequesterID", "ActivatedBy", "ConnectionID", "ClientId", "Client_ID"} {
+			m[k] = claim
+			m[strings.ToLower(k)] = claim
+		}
 	}
 	tgt := int64(-1)
 	switch {
@@ -599,6 +607,9 @@ func (w *world) body(s *stepSpec, subSeq int) string {
 		}
 	case packet.HTTPDomainCreate:
 		m["subdomain"] = fmt.Sprintf("new%d", subSeq)
+		if s.Name != "" { // a fixed name: two racing creates for ONE sub-domain
+			m["subdomain"] = s.Name
+		}
 		m["target_url"] = "http://localhost:3000"
 		if s.Valid {
 			m["base_domain"] = "tunnox.net"
@@ -839,7 +850,8 @@ func runStep(w *world, s *stepSpec, before *stepOut) stepOut {
 			if cc := w.fx.Session.GetControlConnection(connID2); cc != nil {
 				o.X2 = w.idxOfClient(cc.ClientID)
 			}
-			cp2 := &packet.CommandPacket{CommandType: packet.CommandType(s.Pair.Cmd), CommandId: fmt.Sprintf("cmd-%d", cmdSeq), CommandBody: w.body(s.Pair, cmdSeq)}
+			// the SAME sender-chosen CommandId as the parked command: ids are per connection, nothing may be keyed by them across connections
+			cp2 := &packet.CommandPacket{CommandType: packet.CommandType(s.Pair.Cmd), CommandId: cp.CommandId, CommandBody: w.body(s.Pair, cmdSeq)}
 			d2 := make(chan error, 1)
 			go func() {
 				defer func() {
@@ -979,6 +991,36 @@ loop:
 	oa, ob := o, o
 	oa.fails, ob.fails = nil, nil
 	ob.X, ob.DiscM, ob.DiscC, ob.DiscD, ob.SecretLeak = o.X2, nil, nil, nil, nil
+	if sconn2 != nil && sconn2 != sconn {
+		// what was written to the second sender, judged under ITS identity
+		var t2, all2 strings.Builder
+		for _, p := range decodeAll(sconn2.peek()) {
+			if p.CommandPacket != nil {
+				all2.WriteString(p.CommandPacket.CommandBody)
+				if p.PacketType.IsCommandResp() {
+					t2.WriteString(p.CommandPacket.CommandBody)
+				}
+			}
+		}
+		for i, id := range w.mapIDs {
+			if o.Ok2 && strings.Contains(t2.String(), `"`+id+`"`) {
+				ob.DiscM = append(ob.DiscM, int64(i))
+			}
+			if w.mapSec[i] != "" && strings.Contains(all2.String(), w.mapSec[i]) {
+				ob.SecretLeak = append(ob.SecretLeak, int64(i))
+			}
+		}
+		for i, c := range w.codes {
+			if o.Ok2 && strings.Contains(t2.String(), `"`+c+`"`) {
+				ob.DiscC = append(ob.DiscC, int64(i))
+			}
+		}
+		for i, id := range w.domIDs {
+			if o.Ok2 && strings.Contains(t2.String(), `"`+id+`"`) {
+				ob.DiscD = append(ob.DiscD, int64(i))
+			}
+		}
+	}
 	var keep [][]int64
 	for _, d := range o.Deliveries { // packets written to the second sender's own connection are not deliveries to another client
 		if sconn2 != nil && d[0] == o.X2 && o.X2 != 0 {
@@ -992,6 +1034,14 @@ loop:
 	o.Deliveries, oa.Deliveries, ob.Deliveries = keep, keep, keep
 	evalProperty(w, s, before, &oa)
 	evalProperty(w, s.Pair, before, &ob)
+	for _, fb := range ob.fails {
+		if strings.HasSuffix(fb.kind, "-disclosed") && o.PropOK {
+			o.PropOK = false
+			o.PropKey = fmt.Sprintf("pair:cmd%d+cmd%d:second:%s", s.Cmd, s.Pair.Cmd, fb.kind)
+			o.PropMsg = fmt.Sprintf("command %d of connection identity %d (same CommandId) ran while command %d of connection identity %d was parked in its storage call #%d: %s",
+				s.Pair.Cmd, o.X2, s.Cmd, o.X, s.Park, fb.msg)
+		}
+	}
 	for _, fa := range oa.fails {
 		both := strings.HasSuffix(fa.kind, "-disclosed")
 		for _, fb := range ob.fails {
